@@ -97,6 +97,15 @@ def check(ctx):
             lines.append("Dpr %s %s" % (fn, fmt(le(v, w))))
             if rng.random() < 0.2:     # the same print with a debug sink that itself prints numbers after every character it receives
                 lines.append("Dprn %s %s" % (fn, fmt(le(v, w))))
+    # renderings interrupted at instruction boundaries by another complete rendering (an interrupt handler that formats a number while the
+    # main program does): each call's text depends on its own arguments only
+    nest = []
+    fam = ["i8", "i16", "i32", "i64", "u8", "u16", "u32", "u64", "itoa", "utoa", "ltoa", "ultoa"]
+    for fn in fam:
+        for fn2 in [fn, rng.choice(fam)] + ([rng.choice(fam)] if ctx.thorough else []):
+            w1, w2 = WIDTH[fn], WIDTH[fn2]
+            v1 = rng.choice([2 ** (8 * w1) - 1, 2 ** (8 * w1 - 1), rng.getrandbits(8 * w1) | 1 << (8 * w1 - 2)]); v2 = rng.choice([0, 7, rng.getrandbits(8 * w2)])
+            nest.append("ToaI %s %s %d %s %s %d %d" % (fn, fmt(le(v1, w1)), rng.choice([2, 10, 16]), fn2, fmt(le(v2, w2)), rng.choice([10, 16, 36]), 400 if ctx.thorough else 100))
     # memory images of 0..40 bytes (and 255 / 256 / 300 bytes) through debug_writehex / debug_writebin and their reversed forms
     for n in list(range(0, 12)) + [16, 31, 40, 255, 256, 300]:
         for fn in ("mem_hex", "mem_hexr", "mem_bin", "mem_binr"):
@@ -107,7 +116,13 @@ def check(ctx):
         script.append(ln)
     ctx.samples.append({"calls": [script[1], script[len(script) // 2], script[-1]]})
     t = ctx.drive(drv, script, "numconv")
-    bad = ctx.judge("NumTextTrace", [t], shards=16)
+    nscript = []
+    for i, ln in enumerate(nest):
+        if i % 3 == 0: nscript.append("R")
+        nscript.append(ln)
+    tn = ctx.drive(drv, nscript, "numconv_nest", timeout=1500, lines_per_proc=4)
+    ctx.extra["interrupted_renderings"] = len(nest)
+    bad = ctx.judge("NumTextTrace", [t, tn], shards=16)
     for b in bad: b["driver"] = "drv_numconv"
     # the second build configuration (size-optimised, plain char unsigned) on part of the executions
     ta = ctx.drive(build(ctx, alt=True), core.subset_executions(script, ctx.seed, 1.0 if ctx.thorough else 0.34), "numconv_alt")
@@ -130,7 +145,8 @@ def replay(ctx, path):
     e = d["event"]
     if e.get("e") == "Fault":
         return core.replay_fault(ctx, d, drv, "NumTextTrace", path)
-    if e["e"] == "Toa": ln = "Toa %s %s %d" % (e["fn"], fmt(e["val"]), e["base"])
+    if e.get("nestline"): ln = e["nestline"]
+    elif e["e"] == "Toa": ln = "Toa %s %s %d" % (e["fn"], fmt(e["val"]), e["base"])
     elif e["e"] == "Ato": ln = "Ato %s %s %d" % (e["fn"], fmt(e["text"]), e["base"])
     else: ln = "%s %s %s" % ("Dprn" if e.get("nested") else "Dpr", e["fn"], fmt(e["val"]))
     t = ctx.drive(drv, ["R", ln], "replay")
